@@ -873,6 +873,50 @@ class EstProblem:
                 return False
         return True
 
+    def check_motion(self, a, b, lvs):
+        """verdict of DiscreteMotionValidator::checkMotion(a, b) on this environment (same arithmetic)"""
+        if not self.valid(b):
+            return False
+        nd = int(math.ceil(rv_dist(a, b) / lvs))
+        for j in range(1, nd):
+            t = float(j) / float(nd)
+            if not self.valid([a[i] + (b[i] - a[i]) * t for i in range(self.dim)]):
+                return False
+        return True
+
+    @staticmethod
+    def from_script(lines):
+        """rebuild the problem from a harness script (for replays)"""
+        p = EstProblem(0, [], [], 0, [], 0.01, 0.0, 0.05, None, 0.0, [], 1, 0, "replay")
+        for ln in lines:
+            t = ln.split()
+            if t[0] == "est":
+                p.dim = int(t[1])
+            elif t[0] == "bounds":
+                v = [F(x) for x in t[1:]]
+                p.lo, p.hi = v[:p.dim], v[p.dim:]
+            elif t[0] == "boxes":
+                p.pdim, k = int(t[1]), int(t[2])
+                v = [F(x) for x in t[3:]]
+                p.boxes = [(v[2 * p.pdim * j:2 * p.pdim * j + p.pdim], v[2 * p.pdim * j + p.pdim:2 * p.pdim * (j + 1)]) for j in range(k)]
+            elif t[0] == "res":
+                p.res = F(t[1])
+            elif t[0] == "range":
+                p.rng = F(t[1])
+            elif t[0] == "bias":
+                p.bias = F(t[1])
+            elif t[0] == "thr":
+                p.thr = F(t[1])
+            elif t[0] == "goal":
+                p.goal = [F(x) for x in t[1:]]
+            elif t[0] == "start":
+                p.starts.append([F(x) for x in t[1:]])
+            elif t[0] == "seed":
+                p.seed = int(t[1])
+            elif t[0] == "iters":
+                p.iters = int(t[1])
+        return p
+
     def describe(self):
         return {"engine": "est", "dim": self.dim, "boxes": len(self.boxes), "range": self.rng, "bias": self.bias,
                 "thr": self.thr, "starts": len(self.starts), "seed": self.seed, "iters": self.iters, "tag": self.tag}
@@ -887,7 +931,7 @@ def rv_dist(a, b):
     return math.sqrt(dsum)
 
 
-def gen_est_problem(r, i):
+def gen_est_problem(r, i, big=False):
     dim = r.choice([2, 2, 3])
     off = r.choice([0.0, 0.0, -2.0, 5.0])
     scale = r.choice([1.0, 1.0, 4.0])
@@ -903,7 +947,7 @@ def gen_est_problem(r, i):
     rng = r.choice([0.0, 0.0, 0.05 * ext, 0.15 * ext, 0.5 * ext, 3.0 * ext])
     p = EstProblem(dim, lo, hi, dim, boxes, r.choice([0.005, 0.01, 0.02, 0.05]), rng, r.choice([0.05, 0.05, 0.3, 0.0, 1.0, 0.5]),
                    None, r.choice([0.0, 0.0, 0.0, 0.01, 0.03, 0.1]) * ext, [], r.range(1, 100000),
-                   r.choice([0, 1, 5, 40, 150, 400, 900, 2500]), "random")
+                   r.choice([0, 1, 5, 40, 150, 400, 900] + ([2500] if big else [])), "random")
 
     def pick():
         for _ in range(200):
@@ -998,6 +1042,8 @@ def est_oracle(p, R):
             return "motion %d has parent %d (not an earlier motion)" % (i, par)
         if not p.valid(st):
             return "tree state %d is invalid" % i
+        if par >= 0 and not p.check_motion(nodes[par][1], st, F(kv["lvs"])):
+            return "the motion from motion %d to its child %d is in the tree although checkMotion rejects it" % (par, i)
     # ---- the PDF
     try:
         t = R["pdf"].split()[1:]
@@ -1105,17 +1151,21 @@ def est_one(ck, hbin, p):
             return "model/implementation disagreement: %s differs (impl %s, model %s)" % (key, kv.get(key), d.get(key)), "diff", impl, m, R
     for name, a, b_ in (("tree", R["tree"], m[1]), ("pdf", R["pdf"], m[2]), ("path", R["path"], m[3]), ("next rng_ draw", R["next"], m[4])):
         if a != b_:
-            if name == "pdf" and a.split()[:4] == b_.split()[:4] and a.split()[5] == b_.split()[5]:
-                # same elements, same weights; only inner sums differ: equidistant neighbours updated in another order
+            sts = [tuple(st) for _, st in (est_tree(R["tree"]) or [])]
+            if (name == "pdf" and a.split()[:5] == b_.split()[:5] and a.split()[5] == b_.split()[5]
+                    and len(set(sts)) < len(sts)):
+                # same elements, same index_ fields, same weights; only inner sums differ, and the tree holds coincident
+                # states: equidistant neighbours, which std::sort (unspecified on ties) and the model's stable sort
+                # may update in different orders -- that changes the rounding of the inner sums only
                 return "pdf-inner-sums-only", "drift", impl, m, R
             return "model/implementation disagreement: %s differs" % name, "diff", impl, m, R
     return None, None, impl, m, R
 
 
 def est_jobs(ck):
-    n = 70 if ck.tier == "quick" else 600
+    n = 54 if ck.tier == "quick" else 450
     r = ck.rng.fork("est")
-    return [gen_est_problem(r.fork("p%d" % i), i) for i in range(n)]
+    return [gen_est_problem(r.fork("p%d" % i), i, big=ck.tier != "quick") for i in range(n)]
 
 
 def est_judge(ck, p, res):
@@ -1233,6 +1283,20 @@ def run(ck):
 
 
 def replay(ck, data):
+    if data.get("engine") == "est":
+        ebin = build_est(ck)
+        ck.lean_build([EST_DRIVER])
+        p = EstProblem.from_script(data["script"])
+        what, kind, impl, model, R = est_one(ck, ebin, p)
+        for l in (impl or [])[-6:]:
+            print("impl:  " + l[:400])
+        for l in model or []:
+            print("model: " + l[:400])
+        if what and kind != "drift":
+            print(("PROPERTY FAILS: " if kind in ("spec", "crash") else "") + what)
+            return 1
+        print("no failure on the current tree")
+        return 0
     hbin = build(ck)
     ck.lean_build([DRIVER])
     script = data["script"]
